@@ -60,3 +60,14 @@ package unixsocket
 //@   ensures @C19 result.2 != nil ==> len(result.1.Fds) == 0 && all_arrived_closed()
 //@   ensures @C19 result.2 == nil ==> len(result.1.Fds) == S.nrights && forall k int :: 0 <= k && k < S.nrights ==> result.1.Fds[k] == S.right[k] && !FD.closed[S.right[k]]
 //@   ensures 0 <= result.0 && result.0 <= len(b)
+
+// Send side: the control data handed to sendmsg is exactly [rights of m.Fds (iff any)] followed by
+// [credentials m.Cred (iff given)], freshly assembled for this call.
+//@ func pkg/unixsocket.(*Socket).SendMsg props C19
+//@   arith int
+//@   requires s != nil && s.UnixConn != nil && B.n == 0
+//@   assigns B.n, B.item
+//@   callsite WriteMsgUnix: assert @C19 B.n == ite(len(m.Fds) > 0, 1, 0) + ite(m.Cred != nil, 1, 0)
+//@   callsite WriteMsgUnix: assert @C19 len(m.Fds) > 0 ==> B.item[0] == enc_rights(m.Fds)
+//@   callsite WriteMsgUnix: assert @C19 m.Cred != nil ==> B.item[B.n - 1] == enc_cred(m.Cred)
+//@   callsite WriteMsgUnix: assert @C19 b == old(b)
